@@ -46,6 +46,7 @@ def build_driver():
     t = time.time()
     srcs = [os.path.join(COQ, "Extract.v"), os.path.join(ROOT, "ocaml", "driver.ml"),
             os.path.join(ROOT, "ocaml", "genops.ml")]
+    srcs += [os.path.join(ROOT, "ocaml", f) for f in ("textops.ml", "textref.ml", "build.sh")]
     srcs += sorted(os.path.join(COQ, "Model", f) for f in os.listdir(os.path.join(COQ, "Model")) if f.endswith(".v"))
     h = hashlib.sha256()
     for f in srcs:
